@@ -185,25 +185,42 @@ pub fn run(cx: &mut Ctx) {
         let pw = rng.bytes(pwlen);
         let salt_len = *rng.pick(&[16usize, 16, 16, 8, 9, 24, 32, 64]);
         let salt = rng.bytes(salt_len);
-        let ops = rng.range(1, 3) as u64;
+        // Argon2id (what every preset names) or, one case in 4, Argon2i: a Config naming Argon2i is what parsing an
+        // "$argon2i$" string returns. One case in 4 runs more than three passes.
+        let argon2i = rng.chance(1, 4);
+        let ops = if argon2i { rng.range(3, 6) as u64 } else if rng.chance(1, 4) { rng.range(4, 6) as u64 } else { rng.range(1, 3) as u64 };
         // mostly small; one case in 10 has segments longer than one address block and not a multiple of it, or a multi-MiB size
         let mem_kib = if rng.chance(1, 10) { *rng.pick(&[516usize, 600, 1000, 2930]) } else { *rng.pick(&[8usize, 9, 16, 33, 64]) };
         let hash_length = *rng.pick(&[32usize, 32, 16, 33, 64, 128]);
-        let (cfg, _cfg_desc) = build_config(&mut rng, ops, mem_kib * 1024, hash_length, Some(salt_len));
+        let (mut cfg, _cfg_desc) = build_config(&mut rng, ops, mem_kib * 1024, hash_length, Some(salt_len));
+        if argon2i {
+            let text = format!("$argon2i$v=19$m={},t={},p=1${}${}", mem_kib, ops, super::c10::b64enc(&salt), super::c10::b64enc(&[0u8; 32]));
+            match PwHash::<Vec<u8>, Vec<u8>>::from_string(&text) {
+                Ok(p) => {
+                    let (_, _, parsed) = p.into_parts();
+                    cfg = if rng.chance(1, 2) { parsed } else { parsed.with_hash_length(hash_length).with_memlimit(mem_kib * 1024).with_opslimit(ops).with_salt_length(salt_len) };
+                }
+                Err(e) => {
+                    cx.violation("HARNESS|C13|argon2i_string_not_parsed", json!({"text":text,"err":e.to_string()}));
+                    continue;
+                }
+            }
+        }
+        let (alg_id, alg_name) = if argon2i { (na::ALG_ARGON2I13, "argon2i") } else { (na::ALG_ARGON2ID13, "argon2id") };
         // libsodium's construction: secret key = crypto_pwhash(outlen = 32, ...) ; public key = X25519 base mult
         let wsk: [u8; 32] = if salt_len == 16 {
             let s16: [u8; 16] = salt.clone().try_into().unwrap();
-            let a = na::pwhash(32, &pw, &s16, ops, mem_kib * 1024, na::ALG_ARGON2ID13).expect("libsodium pwhash");
-            let b = na::argon2_raw(true, ops as u32, mem_kib as u32, &pw, &salt, 32).expect("argon2 raw");
+            let a = na::pwhash(32, &pw, &s16, ops, mem_kib * 1024, alg_id).expect("libsodium pwhash");
+            let b = na::argon2_raw(!argon2i, ops as u32, mem_kib as u32, &pw, &salt, 32).expect("argon2 raw");
             if a != b {
                 cx.violation("HARNESS|C13|libsodium_public_and_raw_argon2_disagree", json!({}));
             }
             a.try_into().unwrap()
         } else {
-            na::argon2_raw(true, ops as u32, mem_kib as u32, &pw, &salt, 32).expect("argon2 raw").try_into().unwrap()
+            na::argon2_raw(!argon2i, ops as u32, mem_kib as u32, &pw, &salt, 32).expect("argon2 raw").try_into().unwrap()
         };
         let wpk = na::scalarmult_base(&wsk);
-        let case = || json!({"op":"PwHash::derive_keypair","pw":hx(&pw),"salt":hx(&salt),"opslimit":ops,"mem_kib":mem_kib,"config_hash_length":hash_length});
+        let case = || json!({"op":"PwHash::derive_keypair","algorithm":alg_name,"pw":hx(&pw),"salt":hx(&salt),"opslimit":ops,"mem_kib":mem_kib,"config_hash_length":hash_length});
         let r = call(cx, "C13|PwHash::derive_keypair", "PwHash::derive_keypair", case, || {
             PwHash::<Vec<u8>, Vec<u8>>::derive_keypair::<Vec<u8>, StackByteArray<32>, StackByteArray<32>>(&pw, salt.clone(), cfg.clone())
         });
@@ -213,7 +230,7 @@ pub fn run(cx: &mut Ctx) {
                     let cls = if hash_length == 32 { "hash_length=32" } else { "hash_length!=32" };
                     expect_eq(cx, &format!("C13|PwHash::derive_keypair|mismatch_vs_libsodium_construction|{}", cls), &[kp.public_key.as_slice(), kp.secret_key.as_slice()].concat(), &[wpk, wsk].concat(), case);
                     if i % 10 == 0 && mem_kib <= 16 {
-                        cx.io("pw_keypair", json!({"pw":hx(&pw),"salt":hx(&salt),"t":ops,"m":mem_kib,"pk":hx(kp.public_key.as_slice()),"sk":hx(kp.secret_key.as_slice()),"sole_reference":salt_len != 16}));
+                        cx.io("pw_keypair", json!({"pw":hx(&pw),"salt":hx(&salt),"t":ops,"m":mem_kib,"y":if argon2i { 1 } else { 2 },"pk":hx(kp.public_key.as_slice()),"sk":hx(kp.secret_key.as_slice()),"sole_reference":salt_len != 16}));
                     }
                 }
                 Err(e) => cx.violation("C13|PwHash::derive_keypair|unexpected_err", json!({"err":e.to_string(),"case":case()})),
@@ -221,6 +238,8 @@ pub fn run(cx: &mut Ctx) {
         }
         let _ = PasswordHashAlgorithm::Argon2id13;
         cx.cover("function", "PwHash::derive_keypair");
+        cx.cover("derive_keypair_algorithm", alg_name);
+        cx.cover("derive_keypair_passes", &format!("{}", ops));
         cx.cover("derive_keypair_salt_len", &format!("{}", salt_len));
         cx.cover("derive_keypair_config_hash_length", &format!("{}", hash_length));
         if i == 1 {
